@@ -572,7 +572,7 @@ Definition ru_step (acc : fibst * list cmd) (k : N) : fibst * list cmd :=
 
 Definition ru_over (K : list N) (st : fibst) : fibst * list cmd := fold_left ru_step K (st, []).
 
-Lemma remove_unmarked_unfold st : remove_unmarked st = ru_over (map fst (f_prefixes st)) st.
+Lemma remove_unmarked_unfold ord st : remove_unmarked_ord ord st = ru_over (reorder_keys ord (map fst (f_prefixes st))) st.
 Proof. reflexivity. Qed.
 
 Lemma ru_acc K : forall st acc,
@@ -757,42 +757,97 @@ Proof.
 Qed.
 
 (* ------------------------------------------------------------------ fibUpdate as a whole *)
-Lemma fib_update_spec t st rt : FInv st rt ->
-  FInv (fst (fib_update t st)) (rt_run rt (snd (fib_update t st))) /\
-  forall p f, fib_lookup (fst (fib_update t st)) p f = desired t p f.
+(* reordering keeps the content *)
+Lemma aremove_In {A} k (m : list (N * A)) kv : In kv (aremove k m) <-> In kv m /\ fst kv <> k.
 Proof.
-  intros HI. unfold fib_update.
+  induction m as [|[k' v] r IH]; simpl; [tauto|].
+  destruct (N.eqb_spec k' k) as [E|E].
+  - rewrite IH. split; [tauto|]. intros [[H|H] Hn]; [subst kv; simpl in Hn; congruence|tauto].
+  - simpl. rewrite IH. split; [intros [H|H]; [subst kv; simpl; tauto|tauto]|tauto].
+Qed.
+
+Lemma aremove_keys {A} k (m : list (N * A)) : NoDup (map fst m) -> NoDup (map fst (aremove k m)).
+Proof.
+  induction m as [|[k' v] r IH]; simpl; intros Hn; [constructor|]. inversion Hn as [|? ? Hx Hr]; subst.
+  destruct (N.eqb_spec k' k); [auto|]. simpl. constructor; [|auto].
+  intros Hin. apply Hx. apply in_map_iff in Hin. destruct Hin as [kv [E Hkv]]. apply aremove_In in Hkv.
+  apply in_map_iff. exists kv. tauto.
+Qed.
+
+Lemma In_alookup {A} k (v : A) m : NoDup (map fst m) -> In (k, v) m -> alookup k m = Some v.
+Proof.
+  induction m as [|[k' v'] r IH]; simpl; intros Hn H; [destruct H|].
+  inversion Hn as [|? ? Hx Hr]; subst. destruct H as [H|H].
+  - inversion H; subst. rewrite N.eqb_refl. reflexivity.
+  - destruct (N.eqb_spec k' k) as [E|E]; [|auto].
+    subst. exfalso. apply Hx. apply in_map_iff. exists (k, v). split; [reflexivity|exact H].
+Qed.
+
+Lemma reorder_spec {A} ord : forall (l : list (N * A)), NoDup (map fst l) ->
+  NoDup (map fst (reorder ord l)) /\ forall kv, In kv (reorder ord l) <-> In kv l.
+Proof.
+  induction ord as [|k ord IH]; intros l Hn; simpl; [split; [exact Hn|tauto]|].
+  destruct (alookup k l) as [v|] eqn:E; [|apply IH, Hn].
+  destruct (IH (aremove k l) (aremove_keys k l Hn)) as [Hn' Hin'].
+  split.
+  - simpl. constructor; [|exact Hn'].
+    intros Hi. apply in_map_iff in Hi. destruct Hi as [kv [Ek Hkv]]. apply Hin' in Hkv. apply aremove_In in Hkv. tauto.
+  - intros kv. simpl. rewrite Hin', aremove_In. split.
+    + intros [<-|[H _]]; [apply alookup_In, E|exact H].
+    + intros H. destruct (N.eq_dec (fst kv) k) as [Ek|Ek]; [|tauto].
+      left. destruct kv as [k2 v2]. simpl in Ek. subst k2.
+      rewrite (In_alookup k v2 l Hn H) in E. inversion E. reflexivity.
+Qed.
+
+Lemma reorder_keys_In ord : forall ks n, In n (reorder_keys ord ks) <-> In n ks.
+Proof.
+  induction ord as [|k ord IH]; intros ks n; simpl; [tauto|].
+  destruct (mem k ks) eqn:E; [|apply IH].
+  simpl. rewrite IH, srem_In. apply mem_In in E.
+  split; [intros [<-|[_ H]]; assumption|]. intros H. destruct (N.eq_dec n k); [left; congruence|right; tauto].
+Qed.
+
+Lemma fib_update_spec ord1 ord2 t st rt : FInv st rt ->
+  FInv (fst (fib_update_ord ord1 ord2 t st)) (rt_run rt (snd (fib_update_ord ord1 ord2 t st))) /\
+  forall p f, fib_lookup (fst (fib_update_ord ord1 ord2 t st)) p f = desired t p f.
+Proof.
+  intros HI. unfold fib_update_ord.
   set (st0 := {| f_prefixes := f_prefixes st; f_names := f_names st; f_mark := [] |}).
   assert (HI0 : FInv st0 rt) by (apply (FInv_mark st rt []), HI).
-  assert (Hk : NoDup (map fst (build_entries t))) by (apply build_keys; constructor).
-  pose proof (main_loop_spec (build_entries t) st0 rt Hk HI0) as HM.
-  destruct (main_loop (build_entries t) st0) as [st1 c1]. simpl in HM. destruct HM as [A B C D].
+  assert (Hk0 : NoDup (map fst (build_entries t))) by (apply build_keys; constructor).
+  destruct (reorder_spec ord1 (build_entries t) Hk0) as [Hk Hsame].
+  assert (Hkeys : forall p, In p (map fst (reorder ord1 (build_entries t))) <-> In p (map fst (build_entries t))).
+  { intros p. rewrite !in_map_iff. split; intros [kv [E H]]; exists kv; (split; [exact E|]); apply Hsame; exact H. }
+  pose proof (main_loop_spec (reorder ord1 (build_entries t)) st0 rt Hk HI0) as HM.
+  destruct (main_loop (reorder ord1 (build_entries t)) st0) as [st1 c1]. simpl in HM. destruct HM as [A B C D].
   rewrite remove_unmarked_unfold.
-  pose proof (ru_over_spec (map fst (f_prefixes st1)) st1 (rt_run rt c1) A) as HR.
-  destruct (ru_over (map fst (f_prefixes st1)) st1) as [st2 c2]. simpl in HR. destruct HR as [A2 B2 C2 D2 E2].
+  pose proof (ru_over_spec (reorder_keys ord2 (map fst (f_prefixes st1))) st1 (rt_run rt c1) A) as HR.
+  destruct (ru_over (reorder_keys ord2 (map fst (f_prefixes st1))) st1) as [st2 c2]. simpl in HR. destruct HR as [A2 B2 C2 D2 E2].
   simpl. split; [rewrite rt_run_app; exact A2|].
   intros p f. rewrite <- desired_build.
   destruct (alookup p (f_prefixes st1)) as [es1|] eqn:E1.
   - destruct (alookup p (build_entries t)) as [fes|] eqn:Eb.
     + (* processed by the main loop and kept: marked, untouched by the sweep *)
-      assert (Hin : In p (map fst (build_entries t))).
-      { destruct (in_dec N.eq_dec p (map fst (build_entries t))) as [H|H]; [exact H|].
+      assert (Hin : In p (map fst (reorder ord1 (build_entries t)))).
+      { apply Hkeys. destruct (in_dec N.eq_dec p (map fst (build_entries t))) as [H|H]; [exact H|].
         apply alookup_None_notin in H. congruence. }
       assert (Hmk : mem p (f_mark st1) = true) by (apply D; [exact Hin|congruence]).
       rewrite (fib_lookup_ext st1 st2) by (apply B2, Hmk).
-      unfold entries_of. rewrite Eb. apply (B p fes). apply alookup_In, Eb.
+      unfold entries_of. rewrite Eb. apply (B p fes). apply Hsame, alookup_In, Eb.
     + (* not prescribed any more: unmarked, swept *)
-      assert (Hni : ~ In p (map fst (build_entries t))) by (apply alookup_None_notin, Eb).
+      assert (Hni : ~ In p (map fst (reorder ord1 (build_entries t)))).
+      { rewrite Hkeys. apply alookup_None_notin, Eb. }
       destruct (C p Hni) as [_ C2'].
-      assert (Hin1 : In p (map fst (f_prefixes st1))).
-      { destruct (in_dec N.eq_dec p (map fst (f_prefixes st1))) as [H|H]; [exact H|].
+      assert (Hin1 : In p (reorder_keys ord2 (map fst (f_prefixes st1)))).
+      { apply reorder_keys_In. destruct (in_dec N.eq_dec p (map fst (f_prefixes st1))) as [H|H]; [exact H|].
         apply alookup_None_notin in H. congruence. }
       unfold fib_lookup. rewrite (C2 p Hin1) by (rewrite C2'; reflexivity).
       unfold entries_of. rewrite Eb. reflexivity.
-  - assert (Hni1 : ~ In p (map fst (f_prefixes st1))) by (apply alookup_None_notin, E1).
+  - assert (Hni1 : ~ In p (reorder_keys ord2 (map fst (f_prefixes st1)))).
+    { rewrite reorder_keys_In. apply alookup_None_notin, E1. }
     rewrite (fib_lookup_ext st1 st2) by (apply D2, Hni1).
     destruct (alookup p (build_entries t)) as [fes|] eqn:Eb.
-    + unfold entries_of. rewrite Eb. apply (B p fes). apply alookup_In, Eb.
+    + unfold entries_of. rewrite Eb. apply (B p fes). apply Hsame, alookup_In, Eb.
     + unfold fib_lookup. rewrite E1. unfold entries_of. rewrite Eb. reflexivity.
 Qed.
 
@@ -802,8 +857,8 @@ Proof. constructor; simpl; [discriminate|reflexivity|congruence]. Qed.
 Lemma fstep_inv s e : FInv (s_fib s) (s_rt s) -> FInv (s_fib (fstep s e)) (s_rt (fstep s e)).
 Proof.
   intros H. destruct e; simpl; [exact H|].
-  pose proof (fib_update_spec (s_tab s) (s_fib s) (s_rt s) H) as [A _].
-  destruct (fib_update (s_tab s) (s_fib s)) as [st cs]. exact A.
+  pose proof (fib_update_spec ord1 ord2 (s_tab s) (s_fib s) (s_rt s) H) as [A _].
+  destruct (fib_update_ord ord1 ord2 (s_tab s) (s_fib s)) as [st cs]. exact A.
 Qed.
 
 Lemma frun_inv me evs : FInv (s_fib (frun me evs)) (s_rt (frun me evs)).
@@ -816,15 +871,15 @@ Qed.
    table, interleaved with any number of earlier fibUpdate runs, after a fibUpdate the reference route table obtained
    by replaying every register/unregister command emitted since the start equals the from-scratch computation
    `desired` of the current tables, on every (prefix, face). *)
-Lemma installed_mirrors_tables_l : forall me evs p f,
-  let s := frun me (evs ++ [FibUpdate]) in
+Lemma installed_mirrors_tables_l : forall me evs ord1 ord2 p f,
+  let s := frun me (evs ++ [FibUpdate ord1 ord2]) in
   rt_lookup (s_rt s) (p, f) = desired (s_tab s) p f.
 Proof.
-  intros me evs p f. unfold frun. rewrite fold_left_app. simpl.
+  intros me evs ord1 ord2 p f. unfold frun. rewrite fold_left_app. simpl.
   fold (frun me evs). set (s := frun me evs).
   pose proof (frun_inv me evs) as HI. fold s in HI.
-  pose proof (fib_update_spec (s_tab s) (s_fib s) (s_rt s) HI) as [A B].
-  destruct (fib_update (s_tab s) (s_fib s)) as [st cs]. simpl in *.
+  pose proof (fib_update_spec ord1 ord2 (s_tab s) (s_fib s) (s_rt s) HI) as [A B].
+  destruct (fib_update_ord ord1 ord2 (s_tab s) (s_fib s)) as [st cs]. simpl in *.
   rewrite (fi_rt _ _ A). apply B.
 Qed.
 
